@@ -1120,6 +1120,9 @@ func scanLine(buf []byte, i int) (int, []byte) {
 	quoted := false
 	fields := false
 
+	// leading whitespace is not the separator between the key and the fields
+	i = skipWhitespace(buf, i)
+
 	// tracks how many '=' and commas we've seen
 	// this duplicates some of the functionality in scanFields
 	equals := 0
@@ -1130,9 +1133,14 @@ func scanLine(buf []byte, i int) (int, []byte) {
 			break
 		}
 
-		// skip past escaped characters
-		if buf[i] == '\\' && i+2 < len(buf) {
-			i += 2
+		// skip past escaped characters as scanKey and scanFields do; a newline
+		// can only be part of a line inside a quoted string
+		if buf[i] == '\\' && i+2 < len(buf) && (quoted || buf[i+1] != '\n') {
+			if !quoted && buf[i+1] == '\\' {
+				i++
+			} else {
+				i += 2
+			}
 			continue
 		}
 
